@@ -37,6 +37,7 @@ LEVEL_NOTE = ('Trusted: Lean kernel; axioms propext, Classical.choice, Quot.soun
 def observe(op, t):
     g = c05.observe('C05', t)
     try:
+        cobs.prelude()
         p = cobs.paras_obs(cr.DebianCopyright.from_text(t))
     except Exception as e:
         p = Exc(type(e).__name__)
